@@ -1,6 +1,6 @@
 #!/bin/bash
 # usage: tools/run_all.sh [tier] [seeds...]   runs every check listed in tools/ready.txt (or $PROPS) and prints one line each
-cd /verif
+cd "$(dirname "$0")/.."
 TIER=${1:-quick}; shift
 SEEDS=${@:-1}
 PROPS=${PROPS:-$(cat tools/ready.txt)}
